@@ -1007,6 +1007,100 @@ def f(v):
 ''', ['f(1)', 'f(0)'], expect_inlined=False)
 
 
+case('generator consumed by a for loop (one loop ending in its only yield)', '''
+class R(object):
+    def __init__(self, n):
+        self.n = n
+    def match(self, p):
+        return {'n': self.n} if p % self.n == 0 else None
+class App(object):
+    def __init__(self):
+        self.routes = [R(2), R(3), R(5)]
+        self.log = []
+    def _iter_matches(self, req, path, base):
+        self.log.append('start')
+        for route in self.routes + [R(1)]:
+            found = route.match(path)
+            if found is None:
+                continue
+            req['last'] = found
+            yield route, dict(base, **found)
+    def run(self, path, stop):
+        req, out, route = {}, [], None
+        base = {'b': 1}
+        for route, params in self._iter_matches(req, path, base):
+            out.append((route.n, sorted(params.items()), dict(req)))
+            if route.n == stop:
+                break
+            if route.n == 3:
+                continue
+            out.append('tail')
+        else:
+            out.append('exhausted')
+        return out, self.log, route.n
+def f(path, stop):
+    return App().run(path, stop)
+''', ['f(6, 0)', 'f(6, 3)', 'f(30, 5)', 'f(7, 1)', 'f(0, 9)'])
+
+case('generator argument re-bound by the consuming loop: left alone', '''
+class App(object):
+    def _gen(self, xs):
+        for x in xs:
+            yield x
+    def run(self, xs):
+        out = []
+        for y in self._gen(xs):
+            xs = [9]
+            out.append(y)
+        return out
+def f():
+    return App().run([1, 2])
+''', ['f()'], expect_inlined=False)
+
+case('table lookup with next() and the call through the looked-up function', '''
+A, B = 'a', 'b'
+def _on_a(x, log):
+    log.append('a')
+    return x + 1
+def _on_b(x, log):
+    log.append('b')
+    return None
+_HANDLERS = ((A, _on_a), (B, _on_b))
+def _lookup(mode):
+    return next((h for m, h in _HANDLERS if mode == m), None)
+def f(mode, x):
+    log = []
+    handle = _lookup(mode)
+    if handle is not None:
+        r = handle(x, log)
+        if r is not None:
+            return r, log
+        return 'none', log
+    return 'no handler', log
+def g(mode, x):
+    log = []
+    handle = _lookup(mode)
+    r = handle(x, log)
+    return r, log
+''', ['f("a", 1)', 'f("b", 1)', 'f("c", 1)', 'g("a", 2)', 'g("b", 2)', 'g("zz", 2)'])
+
+case('classmethod of a private namedtuple subclass', '''
+from collections import namedtuple
+class _Opts(namedtuple('_Opts', ['prefix', 'flag'])):
+    "options"
+    __slots__ = ()
+    @classmethod
+    def from_kwargs(cls, kw):
+        opts = cls(prefix=kw.pop('prefix', ''), flag=kw.pop('flag', True))
+        if kw:
+            raise TypeError('unexpected: %r' % sorted(kw))
+        return opts
+def f(**kw):
+    opts = _Opts.from_kwargs(kw)
+    return opts.prefix + 'x', (1 if opts.flag else 2), tuple(opts)
+''', ['f()', 'f(prefix="p")', 'f(flag=False, prefix="q")', 'f(other=1)'])
+
+
 def run_case(name, src, calls, expect_inlined):
     tree = ast.parse(src)
     normalize._ANCHORS = set()      # nothing is an anchor in these toy modules
